@@ -512,7 +512,7 @@ func init() {
 			res.Viol = append(res.Viol, ev.Violation{Property: "C16", Key: key, What: what, Replay: rp})
 		}
 		open := func() *hg.BadgerStore {
-			st, err := hg.NewBadgerStore(it.Cache, dir, false, nil)
+			st, err := hg.NewBadgerStore(it.Cache, dir, false, quietBadger())
 			if err != nil {
 				ev.Fail("cannot open badger store: %v", err)
 			}
